@@ -4,6 +4,7 @@ span operations; invariant evaluated on snapshots of real pages; shadow-model or
 import os
 import vcommon as V
 from checks import seqcommon
+from checks.C16 import trval
 
 TRUSTED = ['Lean 4 kernel', 'translator extract/translate.py for Gen/Loops.lean (mi_page_free_list_extend, a while loop -> whileN with fuel 2^64; stores as effect log), validated against the running function on every run (harness/c01 ext -> Driver/C01ext)', 'hand-written models MiVerif/Model/Page.lean and MiVerif/Model/Segment.lean (compared with the real functions after every micro-step, every run)',
            'harness/c01.c (direct drive of static functions through #include of src/static.c; abstraction of a page to block indices)',
@@ -21,6 +22,8 @@ def run(chk):
         chk.broken_tie('lean driver does not build', log[-1500:])
     thorough = chk.tier == 'thorough'
     with V.Scratch() as d:
+        # T1 for the segment-size arithmetic (mi_segment_calculate_slices, page start): generated Lean vs compiled C
+        trval(chk, d, nrand=1000)
         h = os.path.join(d, 'c01')
         ok, log = V.cc_harness(os.path.join(V.HARNESS, 'c01.c'), h, flags=list(V.RELEASE) + ['-DVERIF_STATIC_C="%s/src/static.c"' % V.REPO])
         if not ok:
